@@ -465,6 +465,8 @@ class LockAnalysis:
                 t = la.tok(fi, recv)
                 if srcs:
                     s = la.tok(fi, call_recv(f, srcs[0]))
+                    if s not in st[0] and param_relative(s):
+                        st, _ = need(st, s, 'H', n, ctx, 'copy')
                     held, dirty, fresh, assumed, released, needs = st
                     ev('rawversion', n, ctx, token=t, fresh=(t in fresh), src=s, src_held=(s in held), bad=False)
                     if s in held:
